@@ -20,7 +20,8 @@ RULE = ("families of 2-4 point-compatible masters (integer perturbations of a ra
         "with mirrors/shears, anchors) x {compileInterpolatableTTFs, ...TTFsFromDS, ...OTFsFromDS} x {flattenComponents, "
         "skipExportGlyphs, propagateAnchors lib filter} x both UFO libraries; variants: one component's 2x2 differs between "
         "masters (forces joint decomposition), a component mirrored in one master only (F7), a sparse intermediate layer. "
-        "Non-trivial = family has a composite glyph.")
+        "Non-trivial = family has a composite glyph."
+        " Further families: one 2x2 entry differing between masters (component 2x2 compared, not only names), a closing point coincident in one master (F15), a sparse layer with a mark-ligature composite (F16), a sparse layer + post decomposeComponents filter.")
 ASSUMPTIONS = ["cu2qu converts compatible cubics to compatible quadratic splines (its contract)"]
 F7_SIG = "component-mirrored-in-one-master"
 F15_SIG = "closing-point-coincides-in-one-master-otf"
